@@ -136,6 +136,7 @@ impl StringPoolBuilder {
 // ========================================================================= //
 
 /// The string pool for an MSI package.
+#[derive(Clone)]
 pub struct StringPool {
     codepage: CodePage,
     strings: Vec<(String, u16)>,
@@ -209,8 +210,18 @@ impl StringPool {
 
     /// Inserts a string into the pool, or increments its refcount if it's
     /// already in the pool, and returns the index of the string in the pool.
+    /// Panics if the pool has no room for another string; use
+    /// `check_capacity` beforehand to rule that out.
     pub fn incref(&mut self, string: String) -> StringRef {
-        self.is_modified = true;
+        match self.try_incref(string) {
+            Ok(string_ref) => string_ref,
+            Err(error) => panic!("{}", error),
+        }
+    }
+
+    /// Like `incref`, but returns an error (and leaves the pool unchanged) if
+    /// the pool has no room for another string.
+    fn try_incref(&mut self, string: String) -> io::Result<StringRef> {
         // TODO: change the internal representation of StringPool to make this
         // more efficient.
         for (index, &mut (ref mut st, ref mut refcount)) in
@@ -220,26 +231,66 @@ impl StringPool {
                 debug_assert_eq!(st, "");
                 *st = string;
                 *refcount = 1;
-                return StringRef((index + 1) as i32);
+                self.is_modified = true;
+                return Ok(StringRef((index + 1) as i32));
             }
             if *st == string && *refcount < u16::MAX {
                 *refcount += 1;
-                return StringRef((index + 1) as i32);
+                self.is_modified = true;
+                return Ok(StringRef((index + 1) as i32));
             }
         }
         if self.strings.len() >= u16::MAX as usize && !self.long_string_refs {
             // TODO: If this happens, we need to rewrite all database tables
             // from short to long string refs.
-            panic!(
+            invalid_input!(
                 "Too many strings; rewriting to long string refs is not \
                     yet supported"
             );
         }
         if self.strings.len() >= MAX_STRING_REF as usize {
-            panic!("Too many distinct strings in string pool");
+            invalid_input!("Too many distinct strings in string pool");
         }
         self.strings.push((string, 1));
-        StringRef(self.strings.len() as i32)
+        self.is_modified = true;
+        Ok(StringRef(self.strings.len() as i32))
+    }
+
+    /// Returns the largest number of strings that the pool can hold.
+    fn max_num_strings(&self) -> usize {
+        if self.long_string_refs {
+            MAX_STRING_REF as usize
+        } else {
+            u16::MAX as usize
+        }
+    }
+
+    /// Checks that a sequence of reference changes would not overflow the
+    /// pool, without changing the pool.  Each change optionally releases a
+    /// reference (as `decref` does) and then optionally interns a string (as
+    /// `incref` does).  Returns an error if some `incref` would fail.
+    pub(crate) fn check_capacity<'a, I>(&self, changes: I) -> io::Result<()>
+    where
+        I: Iterator<Item = (Option<StringRef>, Option<&'a str>)> + Clone,
+    {
+        // Common case: even if every string needed a new entry, they would
+        // all fit.
+        let num_new =
+            changes.clone().filter(|change| change.1.is_some()).count();
+        if self.strings.len() + num_new <= self.max_num_strings() {
+            return Ok(());
+        }
+        // Otherwise, replay the changes on a scratch copy of the pool.
+        let mut scratch = self.clone();
+        for (old_ref, new_string) in changes {
+            if let Some(string_ref) = old_ref {
+                scratch.decref(string_ref);
+            }
+            if let Some(string) = new_string {
+                scratch.try_incref(string.to_string())?;
+            }
+        }
+        Ok(())
     }
 
     /// Decrements the refcount of a string in the pool.
